@@ -556,7 +556,7 @@ fn run<T: TestElem>(tier: Tier, shard: usize, n: usize, tag: &str) -> Report {
 fn live<T: TestElem>(tier: Tier, shard: usize, n: usize, tag: &str) -> Report {
 	let mut rep = Report::new();
 	let sc = uni::Scratch::new("c08l");
-	let depth = tier.pick(4usize, 6);
+	let depth = tier.pick(4usize, 5);
 	rep.extra.insert("bound_depth_ops".into(), json!(depth));
 	// narrow alphabet: rewind targets {stay, one block back}; blocks {+1, -first live, +1 -first live}
 	let narrow = |m: &Model| -> Vec<Op> {
@@ -750,7 +750,7 @@ impl Engine for C08 {
 			assumptions: vec![
 				"rewinds never go below the last compaction cutoff and happen before the appends of a unit (the store's documented usage protocol)".into(),
 				"3 units of work with up to 3 appends and 9 leaves (quick) / 4 units with up to 2 appends and 7 leaves (thorough), plus up to 2 compactions and 1 reopen anywhere in between; removal sets of size <= 2 per block".into(),
-				"live parts: paths of 4 ops (quick) / 6 ops (thorough)".into(),
+				"live parts: paths of 4 ops (quick) / 5 ops (thorough)".into(),
 			],
 			exhaustive: true,
 		}
